@@ -38,7 +38,15 @@ Proof. exact validate_exclusive. Qed.
    item either contributes in full or makes the whole line an error *)
 Theorem C14_tokens_read_as_items : forall its, flags_only its -> flags_parse (flat_map render_item its) = expected_of_items its.
 Proof. exact tokens_read_as_items. Qed.
-(* and a stray word, or anything after the terminator, is an error *)
+(* the same with stray words (any token not of the form -x...) and the "--" terminator in the line *)
+Theorem C14_tokens_read_as_all_items : forall its, items_ok its -> flags_parse (flat_map render_item its) = expected_of_items its.
+Proof. exact tokens_read_as_all_items. Qed.
+(* so the parser itself rejects a line with a stray word anywhere, and a line with anything after "--" *)
+Theorem C14_parser_rejects_stray : forall a w b, items_ok (a ++ FStray w :: b) -> flags_parse (flat_map render_item (a ++ FStray w :: b)) = None.
+Proof. exact parser_rejects_stray. Qed.
+Theorem C14_parser_rejects_after_terminator : forall a x b, items_ok (a ++ FTerm :: x :: b) -> flags_parse (flat_map render_item (a ++ FTerm :: x :: b)) = None.
+Proof. exact parser_rejects_after_terminator. Qed.
+(* (the item-by-item reading rejects them by definition) *)
 Theorem C14_stray_rejected : forall a w b, expected_of_items (a ++ FStray w :: b) = None.
 Proof.
   intros a w b. unfold expected_of_items.
@@ -62,3 +70,6 @@ Print Assumptions C14_compare_complete.
 Print Assumptions C14_exclusive.
 Print Assumptions C14_tokens_read_as_items.
 Print Assumptions C14_stray_rejected.
+Print Assumptions C14_tokens_read_as_all_items.
+Print Assumptions C14_parser_rejects_stray.
+Print Assumptions C14_parser_rejects_after_terminator.
